@@ -24,7 +24,10 @@ func (d *Comma) Evaluation(
 ) (err error) {
 
 	var tArray []*base.T
-	tArray = append(tArray, p.GetLastEvaluatedTPointer().(*base.T))
+
+	// nothing evaluated yet (", 1") or a non-type value: treated like nil below
+	lastT, _ := p.GetLastEvaluatedTPointer().(*base.T)
+	tArray = append(tArray, lastT)
 
 	for {
 		nextT, err := p.Read()
@@ -53,7 +56,8 @@ func (d *Comma) Evaluation(
 			return err
 		}
 
-		tArray = append(tArray, p.GetLastEvaluatedTPointer().(*base.T))
+		lastT, _ = p.GetLastEvaluatedTPointer().(*base.T)
+		tArray = append(tArray, lastT)
 
 		nextT, err = p.Read()
 		if err != nil {
